@@ -450,6 +450,47 @@ theorem writeset_synchronised :
       if e.2.2.1 then e.2.2.2 != .compileTime && e.2.2.2 != .testOnly
       else e.2.2.2 == .compileTime || e.2.2.2 == .testOnly || e.2.2.2 == .mutex) = true := by decide
 
+/-- what the *regenerated* synchronisation evidence (`Generated.sharedWriteSync`: kind, mutex) has to be for
+    an annotation: a `mutex` write lies lexically inside `Lock()`…`Unlock()` of one of the three mutexes in
+    every occurrence (or in a plain function all of whose call sites do: `extendClock`); `poolOwned` and
+    `callLocal` writes are stores through a pointer.  The other annotations do not claim a synchronisation
+    primitive (`compileTime`/`testOnly`: unreachable at match time; `parseLocal`/`lazyInit`: see `Sync`). -/
+def Sync.evidenceOK : Sync → String × String → Bool
+  | .mutex, (k, m) => (k == "lock" || k == "callerlock") && (m == "fast.mu" || m == "c.mu" || m == "enginesMu")
+  | .poolOwned, (k, _) => k == "deref"
+  | .callLocal, (k, _) => k == "deref"
+  | _, _ => true
+
+/-- **The `Sync` column agrees with evidence regenerated from the source.**  The extractor records for
+    every shared write how it is synchronised syntactically -- inside a `mu.Lock()`…`Unlock()` region (and of
+    which mutex), in a function only ever called inside such a region, through a pointer dereference, or
+    none of these -- on every run.  (1) The regenerated table lists the same writes in the same order as
+    the annotated one; (2) every annotation is backed by the regenerated evidence (`Sync.evidenceOK`);
+    (3) a write reachable at match time whose regenerated evidence is `plain` (no lock, no dereference)
+    is annotated `parseLocal` or `lazyInit` -- the two kinds whose safety rests on other arguments (the
+    replacement parser mutates only the tree it is building; `initCaches_callers`); (4) lock evidence
+    occurs only on entries annotated `mutex`.  Removing the `Lock()` around a cache or clock write, or
+    adding an unlocked second write to the same target, flips the evidence to `plain` and breaks this
+    obligation. -/
+theorem writeset_synchronised_regenerated :
+    Generated.sharedWriteSync.map (fun e => (e.1, e.2.1)) = expectedSharedWrites.map (fun e => (e.1, e.2.1)) ∧
+    (List.zip expectedSharedWrites Generated.sharedWriteSync).all
+      (fun p => Sync.evidenceOK p.1.2.2.2 (p.2.2.2.1, p.2.2.2.2)) = true ∧
+    (List.zip expectedSharedWrites Generated.sharedWriteSync).all
+      (fun p => !(p.1.2.2.1 && p.2.2.2.1 == "plain") || p.1.2.2.2 == .parseLocal || p.1.2.2.2 == .lazyInit) = true ∧
+    (List.zip expectedSharedWrites Generated.sharedWriteSync).all
+      (fun p => !(p.2.2.2.1 == "lock" || p.2.2.2.1 == "callerlock") || p.1.2.2.2 == .mutex) = true := by
+  decide
+
+/-- non-vacuity: the regenerated table does contain lock evidence for the three mutexes and the
+    caller-holds-lock case -/
+example :
+    ("fastclock.go:extendClock", "var regexp2.fast.start", "callerlock", "fast.mu") ∈ Generated.sharedWriteSync ∧
+    ("fastclock.go:runClock", "var regexp2.fast.running", "lock", "fast.mu") ∈ Generated.sharedWriteSync ∧
+    ("regexp.go:replacerDataCache.add", "regexp2.replacerDataCache.cache[]", "lock", "c.mu") ∈ Generated.sharedWriteSync ∧
+    ("regexp_codegen.go:RegisterEngine", "var regexp2.engines[]", "lock", "enginesMu") ∈ Generated.sharedWriteSync := by
+  decide
+
 /-- both constructors call `initCaches`, so the lazy call in `getRunner` never fires for a usable Regexp -/
 theorem initCaches_callers :
     Generated.initCachesCallers = ["regexp.go:compile", "regexp_codegen.go:newEngineRegexp", "runner.go:Regexp.getRunner"] := by
